@@ -25,6 +25,11 @@ PATHS_KEEP = ["{X}", "{X}()", "{X}.rotated().unrotated()", "{X}.sliced(0, 2)", "
 PATHS_D2_KEEP = ["{X}.transposed().transposed()", "(~~{X})", "{X}.partitioned(1)[0]", "{X}.reversed().reversed()"]
 
 
+PROXY_PATHS = ["{X}[1][2]", "{X}(1, 2)", "{X}[1].front()", "{X}[1].back()", "{X}.rotated()[2].back()", "*{X}[1].begin()", "*{X}.elements().begin()", "{X}.elements()[3]", "{X}()[1][2]",
+               "{X}.sliced(0,2)[1][2]", "(*{X}.begin())[2]", "{X}.transposed()[2][1]", "{X}.home()[1][2]", "{X}[1].elements()[2]", "{X}.diagonal()[1]", "{X}.flatted()[5]", "{X}[1](2)", "{X}.rotated()[2][1]",
+               "{X}({{0, 2}}, 1)[1]", "*{X}.diagonal().begin()"]
+
+
 def mutators(D):
     m = [("assign-array", "{E} = B;"), ("assign-view", "{E} = B();"), ("elements-assign", "{E}.elements() = B.elements();"), ("swap", "{{ using std::swap; swap({E}(), B()); }}"),
          ("element-write", "{E}" + "[0]" * D + " = 1;"), ("call-write", "{E}(" + ", ".join(["0"] * D) + ") = 1;"), ("begin-write", "(*{E}.begin())" + "[0]" * (D - 1) + " = 1;"),
@@ -77,6 +82,18 @@ def c16_probes(tier):
                     e = p.format(X=r)
                     stmt = m.format(E=e)
                     items.append(("D%d|mutable-path-rejects|%s|%s" % (D, name, p.format(X="<mutable " + {"A": "array", "S": "static_array", "R": "array_ref", "V": "view", "A()": "temporary view"}[r] + ">")), PRE % dict(D=D, EXT=ext, STMT=stmt), True))
+    # the same question over a pointer type whose references are PROXY objects (engine/proxy_ptr.hpp): element-write paths through a const array_ref must be ill-formed
+    ppre = """#include <boost/multi/array.hpp>
+#include "%s/engine/proxy_ptr.hpp"
+namespace multi = boost::multi;
+void probe() { int buf[12] = {}; multi::array_ref<int, 2, proxy::ptr<int>> P(proxy::ptr<int>{buf}, {3, 4}); auto const& cP = P; (void)cP;
+	%%s
+}
+""" % os.path.dirname(os.path.abspath(__file__))
+    for pth in PROXY_PATHS:
+        for root, exp in (("P", True), ("cP", False)):
+            items.append(("D2|%s|write|%s" % ("mutable-path-rejects" if exp else "const-path-accepts", pth.format(X="<mutable array_ref over a proxy-reference pointer>" if exp else "<const array_ref over a proxy-reference pointer>")),
+                          ppre % (pth.format(X=root) + " = 9;"), exp))
     viol, samples, vacuous = {}, [], []
     n_const = n_mut = 0
     with cf.ThreadPoolExecutor(max_workers=os.cpu_count() or 8) as ex:
